@@ -46,6 +46,18 @@ func (e *Engine) execCall(st *State, c *ssa.CallCommon, instr ssa.Instruction, p
 		if v, ok := e.intercept(st, f, args, pos); ok {
 			return one(v)
 		}
+		if _, has := e.Contracts[f]; !has || e.Contracts[f].Inline {
+			// call-site assertions apply to callees without contract too
+			if ann := e.callAnnotation(st, instr, name); ann != nil {
+				cenv := e.funcEnv(st)
+				for _, u := range ann.Uses {
+					st.assume(e.evalBool(cenv, u))
+				}
+				for _, a := range ann.Asserts {
+					e.check(st, "assert", "at call "+name+" "+clauseLabel(a), a.Props, e.evalBool(cenv, a.Expr), pos)
+				}
+			}
+		}
 		if fc, ok := e.Contracts[f]; ok && !fc.Inline {
 			return one(e.applyContract(st, fc, f, f.Signature, args, instr, pos, name))
 		}
@@ -355,15 +367,7 @@ func (e *Engine) execCopy(st *State, args []Value, pos token.Pos) Value {
 func (e *Engine) applyContract(st *State, fc *contract.Func, f *ssa.Function, sig *types.Signature, args []Value, instr ssa.Instruction, pos token.Pos, name string) Value {
 	env := e.calleeEnv(st, fc, f, sig, args)
 	// ghost instantiation from "at call" annotations of the caller
-	ord := e.cur.callOrdinal(instr, name)
-	var ann *contract.Call
-	if e.cur.fc != nil && st.fr.parent == nil {
-		for _, c := range e.cur.fc.Calls {
-			if c.Callee == name && (c.Ordinal == ord || c.Ordinal == -1) {
-				ann = c
-			}
-		}
-	}
+	ann := e.callAnnotation(st, instr, name)
 	callerEnv := e.funcEnv(st)
 	for _, g := range fc.Ghosts {
 		gname := strings.Fields(g)[0]
@@ -499,4 +503,18 @@ func (c *verifyCtx) callOrdinal(instr ssa.Instruction, name string) int {
 		return o
 	}
 	return -2
+}
+
+// callAnnotation finds the "at call name#k" annotation for a call instruction of the function under verification.
+func (e *Engine) callAnnotation(st *State, instr ssa.Instruction, name string) *contract.Call {
+	if e.cur == nil || e.cur.fc == nil || st.fr.parent != nil {
+		return nil
+	}
+	ord := e.cur.callOrdinal(instr, name)
+	for _, c := range e.cur.fc.Calls {
+		if c.Callee == name && (c.Ordinal == ord || c.Ordinal == -1) {
+			return c
+		}
+	}
+	return nil
 }
